@@ -20,10 +20,12 @@ def models(quick):
     if quick:
         return [ModelRun("C10_sd", letters=[0, 1], maxlen=2, maxn=3, ks=[1], engines=["symdel"], modes=["lev", "hamming"], invariants=inv),
                 ModelRun("C10_sd2", letters=[0, 1], maxlen=1, maxn=3, maxn2=2, ks=[1], engines=["symdel", "hash"], invariants=inv),
-                ModelRun("C10_hk", letters=[0, 1], maxlen=2, maxn=2, ks=[1], engines=["hash", "kd"], modes=["lev", "hamming"], comps=[1], invariants=inv)]
+                ModelRun("C10_hk", letters=[0, 1], maxlen=2, maxn=2, ks=[1], engines=["hash", "kd"], modes=["lev", "hamming"], comps=[1], invariants=inv),
+                ModelRun("C10_cd", letters=[0, 1], maxlen=2, maxn=2, ks=[1, 2], engines=["symdel", "hash", "kd"], modes=["custom"], cdfams=["hamlen", "levq"],
+                         maxcs=[nc.INF], invariants=inv)]
     return [ModelRun("C10_sd", letters=[0, 1], maxlen=2, maxn=3, ks=[1, 2], engines=["symdel", "hash", "kd"], modes=["lev", "hamming"], invariants=inv),
             ModelRun("C10_sd2", letters=[0, 1], maxlen=2, maxn=2, maxn2=2, ks=[1, 2], engines=["symdel", "hash"], invariants=inv),
-            ModelRun("C10_cd", letters=[0, 1], maxlen=2, maxn=3, ks=[1], engines=["symdel", "hash", "kd"], modes=["custom"], cdfams=["hamlen", "lev2"], maxcs=[4, nc.INF], invariants=inv)]
+            ModelRun("C10_cd", letters=[0, 1], maxlen=2, maxn=3, ks=[1], engines=["symdel", "hash", "kd"], modes=["custom"], cdfams=["hamlen", "lev2", "levq"], maxcs=[4, nc.INF], invariants=inv)]
 
 
 def check_variants(ctx, doc, letters, containers, n):
